@@ -82,7 +82,8 @@ class C04(Prop):
             'MultiTestResult / ExtendedToStreamDecorator(+StreamFailFast) over genuine testtools.TestResult / TextTestResult leaves with failfast '
             'set or not on each leaf before wrapping; in 35% of the graphs also recording results of the 2.6 / 2.7 / Twisted flavours behind an '
             'ExtendedToOriginalDecorator, half of the 2.6 / Twisted ones with a failfast attribute assigned on them before or after the objects '
-            'above were built; histories of 0-6 tests x 1-2 runs, outcomes as exc_info / details / plain, failfast assigned '
+            'above were built; 8% of the cases: failfast assigned on a ThreadsafeForwardingResult (or a TestResultDecorator / Tagger over it) that is '
+            'reported to directly, over a 2.7 / Twisted style or stream target, the first bad outcome mostly an unexpected success; histories of 0-6 tests x 1-2 runs, outcomes as exc_info / details / plain, failfast assigned '
             'on the outer object and stop() at random positions, 10% damaged histories; 30% of the cases also run testtools.run (TestProgram, in '
             'process) on a module of 0-6 real TestCases with chosen outcomes, with and without -f. thorough adds every history of <= 2 tests '
             '(6 outcomes) x {failfast before, after, never} x stop position over 12 graphs. non-trivial = an adapter above a leaf and a failing '
@@ -103,12 +104,15 @@ class C04(Prop):
                 'ThreadsafeForwardingResult, MultiTestResult over TestResult / TextTestResult leaves and all call histories: wasSuccessful() '
                 'is false exactly when an error, failure or unexpected success was reported since the last startTestRun; every '
                 'TextTestResult writes banner, one section per problem, the number of tests started and OK / FAILED(k) in agreement with it; '
-                'failfast read through any stack is what was set on the result(s) it reads through to - before or after wrapping, also as an attribute assigned on a 2.6 / Twisted style result behind its ExtendedToOriginalDecorator; with failfast reading true (also on a TestResultDecorator / Tagger reported to directly, on a directly used ThreadsafeForwardingResult, D15, and over old-flavour results: then shouldStop is the adapter\'s reading, its own flag if the result has none) the first bad outcome sets shouldStop, which then stays set until startTestRun, and (own results) is never set earlier (only after stop() or a bad outcome with failfast set somewhere); stop() on any node reaches every result below it; wrapping - and every startTestRun on any wrapper - leaves the failfast of every result alone (D14), and each result by itself '
+                'failfast read through any stack is what was set on the result(s) it reads through to - before or after wrapping, also as an attribute assigned on a 2.6 / Twisted style result behind its ExtendedToOriginalDecorator; with failfast reading true (also on a TestResultDecorator / Tagger reported to directly, on a directly used ThreadsafeForwardingResult, D15, and over old-flavour results: then shouldStop is the adapter\'s reading, its own flag if the result has none) the first bad outcome sets shouldStop, which then stays set until startTestRun, and (own results, stream pipelines included: StreamFailFast calls the decorator\'s stop for error / failure / unexpected success only) is never set earlier (only after stop() or a bad outcome with failfast set somewhere); stop() on any node sets its shouldStop (every graph, also the stream decorator\'s own) and reaches every result below it; wrapping - and every startTestRun on any wrapper - leaves the failfast of every result alone (D14), and each result by itself '
                 'stops exactly by its own setting or by a fail-fast ExtendedToOriginalDecorator above it; exit '
                 'status and summary of testtools.run for a module of test cases with and without -f.  The hand-written model is tied to '
                 'the code by a differential check (random + bounded-exhaustive graphs x histories, TestProgram run in process).',
-        'note': 'partial: everything through ExtendedToStreamDecorator + StreamFailFast is validated by the correspondence only (no theorem); the '
-                'text-summary theorem excludes TextTestResult behind ThreadsafeForwardingResult; '
+        'note': 'partial: the text-summary theorem excludes TextTestResult behind ThreadsafeForwardingResult; for graphs with a stream pipeline '
+                '(ExtendedToStreamDecorator + StreamFailFast) the fail-fast / stop clauses (failfast-kept, failfast-read, failfast-stops, '
+                'stop-sets, stop-sticky, not-earlier) are proved, while verdict, summary and the per-result clauses are stated for graphs '
+                'without one (StreamSummary.wasSuccessful does not count unexpected successes and learns of unfinished tests only at '
+                'stopTestRun; stop() on the stream decorator does not go on to the results behind it); '
                 'TextTestResult output is parsed, not modelled character by character; trusted: Lean kernel, model, harness',
         'technique': 'Lean 4 proofs by induction on the adapter tree (generic leaf-action theorem, frame lemma for failfast) and on the call '
                      'history; executable spec shared with a differential correspondence check',
@@ -217,11 +221,45 @@ class C04(Prop):
             shape = ['multi'] + [['etod', leaf(f)] for f in flags]
             if rng.random() < 0.4:
                 shape = [rng.choice(['etod', 'deco']), shape] if rng.random() < 0.7 else ['multi', ['etod', shape], ['etod', ['tt', False]]]
+        if rng.random() < 0.08:
+            return [*self.gen_own_failfast(rng), None]
         kinds = R.kinds_in(shape)
         prog = None
         if rng.random() < 0.3:
             prog = some([rng.random() < 0.5, [rng.choice(R.KINDS + ['success', 'success']) for _ in range(rng.choice([0, 1, 2, 3, 4, 6]))]])
         return [shape, self.gen_hist(rng, shape, kinds), prog]
+
+    def gen_own_failfast(self, rng):
+        """failfast assigned on a ThreadsafeForwardingResult (or a decorator over it) that is reported to directly, over a target that may not
+        count an unexpected success as unsuccessful; the first bad outcome of the run is mostly an unexpected success"""
+        F = ['tt', False]
+        target = rng.choice([['sink', 'py27'], ['sink', 'py27'], ['sink', 'twisted'], ['fsink', rng.random() < 0.5, rng.random() < 0.3, 'twisted'],
+                             ['e2s', ['etod', rng.choice([F, ['sink', 'py27'], ['text', False]])]], ['sink', 'py26'], F,
+                             ['multi', ['etod', ['sink', 'py27']], ['etod', F]]])
+        shape = ['tfr', ['etod', target]]
+        r = rng.random()
+        if r < 0.2:
+            shape = ['deco', shape]
+        elif r < 0.4:
+            shape = ['tagger', R.gen_tagset(rng, 4), [], shape]
+        elif r < 0.45:
+            shape = ['multi', ['etod', shape]]
+        h = [['startTestRun']]
+        if rng.random() < 0.85:
+            h.append(['setFailfast', True])
+        tid = 0
+        first_bad = rng.choice(['uxsuccess', 'uxsuccess', 'uxsuccess', 'failure', 'error'])
+        for k in [rng.choice(['success', 'skip', 'xfail']) for _ in range(rng.choice([0, 0, 1, 2]))] + [first_bad] + \
+                [rng.choice(R.KINDS) for _ in range(rng.choice([0, 1, 2]))]:
+            tid += 1
+            arg = rng.choice([None, ['details', []]]) if k in ('success', 'uxsuccess') else \
+                rng.choice([['reason', [114]], ['details', []]]) if k == 'skip' else rng.choice([['exc', 'real'], ['details', []]])
+            h += [['startTest', tid], ['add', k, tid, arg], ['stopTest', tid]]
+            if rng.random() < 0.1:
+                h.append(R.gen_tags_call(rng))
+        if rng.random() < 0.8:
+            h.append(['stopTestRun'])
+        return shape, h
 
     def enumerate(self, tier):
         T, F = ['tt', True], ['tt', False]
@@ -231,7 +269,8 @@ class C04(Prop):
                   ['multi', ['etod', T], ['etod', F]], ['multi', ['etod', F], ['etod', ['multi', ['etod', F], ['etod', T]]]],
                   ['multi', ['etod', ['fsink', True, True, 'py26']], ['etod', F]],
                   ['tfr', ['etod', ['fsink', False, True, 'twisted']]], ['deco', ['etod', ['fsink', True, False, 'py26']]],
-                  ['tagger', [1], [], T], ['etod', ['sink', 'py27']]]
+                  ['tagger', [1], [], T], ['etod', ['sink', 'py27']],
+                  ['tfr', ['etod', ['sink', 'py27']]], ['deco', ['tfr', ['etod', ['sink', 'twisted']]]], ['tfr', ['etod', ['e2s', ['etod', F]]]]]
         outs = [(k, None if k in ('success', 'uxsuccess') else ['reason', [114]] if k == 'skip' else ['exc', 'real']) for k in R.KINDS]
         for s in shapes:
             for ffpos in [None, 0, 1]:
@@ -271,6 +310,10 @@ class C04(Prop):
             bads = [i for i, c in enumerate(hist) if c[0] == 'add' and c[1] in BAD]
             if any(params) and not all(params) and runs and bads and runs[0] < bads[-1]:
                 f.append('no-assign+mixed+run-before-bad')
+        root = shape[1] if shape[0] == 'deco' else shape[3] if shape[0] == 'tagger' else shape
+        if root[0] == 'tfr' and ['setFailfast', True] in hist:
+            bad = [c[1] for c in hist if c[0] == 'add' and c[1] in BAD]
+            f.append('tfr-own-failfast:first-bad=%s,target=%s' % (bad[0] if bad else 'none', root[1][1][0] + (':' + str(root[1][1][-1]) if 'sink' in root[1][1][0] else '')))
         for c in hist:
             if c[0] == 'add':
                 f.append('kind:' + c[1])
